@@ -133,7 +133,12 @@ func ruleC01(w *World) {
 	w.ruleVerifyGuards("C01.R2", a, g)
 	w.ruleSignGuards("C01.R2", a, g)
 	w.ruleVerdictProvenance("C01.R3", a.verify, "bls_verify", a)
+	// R10: a signature handed to the caller is the caller's own value
+	w.floor("C01.R10", 1)
+	w.ruleFreshResult("C01.R10", a.sign, 0, "signature")
 	w.ruleIdentityFlag("C01.R4", a)
+	w.floor("C01.R13", 1)
+	w.ruleSigContent("C01.R13", a.verify, 1)
 	// R5: the domain tag and ciphersuite are folded into the KMAC key and reach the hash unmodified
 	w.floor("C01.R5", 4)
 	w.ruleKmacInitBlock("C01.R5")
@@ -165,7 +170,7 @@ func (w *World) ruleVerifyGuards(rule string, a *blsAnchors, g *ssa.Function) {
 	H := fmt.Sprintf("%s.ComputeHash(%s)", hasher, data)
 	exp := []string{"&" + recv + "." + a.ptFld, "&" + sig + "[0]", "&" + H + "[0]", "len(" + H + ")"}
 	for i, e := range exp {
-		got := render(c.Call.Args[i])
+		got := normReslice(render(c.Call.Args[i]), a.sigLen)
 		if i == 1 && got != e && w.localCopyOf(c.Call.Args[i], fn.Params[1], c, a.sigLen) {
 			w.ok(rule, fmt.Sprintf("%s/arg%d", key, i), c.Pos(), "argument is a local array that a dominating copy filled from "+sig+" (whose length is guarded)")
 			continue
@@ -318,7 +323,11 @@ func (w *World) ruleIdentityFlag(rule string, a *blsAnchors) {
 			if al.Comment != "" {
 				key += ":" + al.Comment
 			}
-			var flagStores []*ssa.Store
+			type flagSet struct {
+				Val ssa.Value
+				ins ssa.Instruction
+			}
+			var flagStores []flagSet
 			var pointWrites []ssa.Instruction
 			var escapes []ssa.Instruction
 			wholeCopy := false
@@ -332,7 +341,7 @@ func (w *World) ruleIdentityFlag(rule string, a *blsAnchors) {
 						case *ssa.Store:
 							if x.Addr == r {
 								if fname == a.flagField {
-									flagStores = append(flagStores, x)
+									flagStores = append(flagStores, flagSet{x.Val, x})
 								} else if fname == a.ptFld {
 									pointWrites = append(pointWrites, x)
 								}
@@ -345,6 +354,20 @@ func (w *World) ruleIdentityFlag(rule string, a *blsAnchors) {
 							for _, r3 := range *x.Referrers() {
 								if ci, ok := r3.(ssa.CallInstruction); ok && fname == a.ptFld && w.callMayWritePointArg(ci, x) {
 									pointWrites = append(pointWrites, ci)
+								}
+							}
+						}
+					}
+				case *ssa.Call:
+					// a setter method of the key type applied to the object under construction: `k.setFlag(v)` whose body is
+					// `k.<flag> = v`
+					if h := r.Call.StaticCallee(); h != nil && inModule(h) && h.Blocks != nil && len(h.Params) == 2 && len(r.Call.Args) == 2 && r.Call.Args[0] == al && len(h.Blocks) == 1 {
+						for _, hi := range h.Blocks[0].Instrs {
+							if st, ok := hi.(*ssa.Store); ok && st.Val == h.Params[1] {
+								if fa, ok := st.Addr.(*ssa.FieldAddr); ok && fa.X == h.Params[0] {
+									if f := addrField(fa); f != nil && f.Name() == a.flagField {
+										flagStores = append(flagStores, flagSet{r.Call.Args[1], r})
+									}
 								}
 							}
 						}
@@ -412,17 +435,20 @@ func (w *World) ruleIdentityFlag(rule string, a *blsAnchors) {
 						why = "flag assigned from `" + src + "`, not from the infinity/zero predicate"
 						continue
 					}
-					if !(s.Block().Dominates(esc.Block())) {
+					if !(s.ins.Block().Dominates(esc.Block())) {
 						why = "flag store does not dominate the escape"
 						continue
 					}
 					late := false
 					for _, pw := range pointWrites {
-						if pw.Block() == s.Block() {
-							if instrIndex(pw) > instrIndex(s) {
+						if pw == s.ins {
+							continue
+						}
+						if pw.Block() == s.ins.Block() {
+							if instrIndex(pw) > instrIndex(s.ins) {
 								late = true
 							}
-						} else if fi.reachable(s.Block(), pw.Block()) && fi.reachable(pw.Block(), esc.Block()) {
+						} else if fi.reachable(s.ins.Block(), pw.Block()) && fi.reachable(pw.Block(), esc.Block()) {
 							late = true
 						}
 					}
@@ -637,6 +663,9 @@ func ruleC02(w *World) {
 	fn := w.mustFn("C02.R2", rootPath, "VerifyBLSSignatureManyMessages")
 	if fn != nil {
 		pks, sig, msgs, hs := P(fn, 0), P(fn, 1), P(fn, 2), P(fn, 3)
+		w.floor("C02.R10", 2)
+		w.ruleSigContent("C02.R10", fn, 1)
+		w.ruleSigContent("C02.R10", w.fn(rootPath, "VerifyBLSSignatureOneMessage"), 1)
 		for _, cn := range []string{"bls_verifyPerDistinctMessage", "bls_verifyPerDistinctKey"} {
 			sites := cgoCalls(fn, cn)
 			if len(sites) != 1 {
@@ -650,7 +679,7 @@ func ruleC02(w *World) {
 				fmt.Sprintf("len(%s) != 0", pks),
 				fmt.Sprintf("len(%s) == len(%s)", msgs, pks),
 				fmt.Sprintf("len(%s) == len(%s)", hs, msgs))
-			w.check(render(c.Call.Args[0]) == "&"+sig+"[0]", "C02.R2", key+"/arg0", c.Pos(), "signature pointer is &sig[0]", "first argument is not the signature buffer: "+render(c.Call.Args[0]))
+			w.check(normReslice(render(c.Call.Args[0]), a.sigLen) == "&"+sig+"[0]", "C02.R2", key+"/arg0", c.Pos(), "signature pointer is &sig[0]", "first argument is not the signature buffer: "+render(c.Call.Args[0]))
 		}
 		// R7: the group count handed to C is the number of entries of the per-group arrays handed with it: either it is
 		// len() of one of them, or it is len(M) of the grouping map and every per-group array receives exactly one
@@ -1076,6 +1105,10 @@ func (w *World) errorEdgesT(fn *ssa.Function, subst func(string) string, depth i
 							if strings.HasSuffix(f.Expr, " != nil") && strings.HasPrefix(f.Expr, render(hc)) {
 								through = true
 							}
+							// `if ok, err := h(…); !ok { return …, err }`: decided by another result of the same call
+							if _, isEx := stripConv(errv).(*ssa.Extract); isEx && strings.HasPrefix(f.Expr, render(hc)+"#") {
+								through = true
+							}
 						}
 						if through {
 							hsub := func(x string) string {
@@ -1102,6 +1135,43 @@ func (w *World) errorEdgesT(fn *ssa.Function, subst func(string) string, depth i
 			}
 			for _, f := range fs {
 				out = append(out, errEdge{subst(f.Expr), cls, retPos(r), t})
+				// the condition is the verdict of a predicate helper (`!s.validParticipant(i)`): the branch conditions under
+				// which the helper gives that verdict decide the error too, in the caller's vocabulary
+				for _, pc := range f.calls {
+					h := helperCallee(pc)
+					if h == nil || !isBool(pc.Type()) || depth > 1 {
+						continue
+					}
+					var val bool
+					switch f.Expr {
+					case render(pc) + " == false":
+						val = false
+					case render(pc) + " == true":
+						val = true
+					default:
+						continue
+					}
+					restore := bindHelper(pc)
+					for _, hr := range returnsD(h, 99) {
+						if len(hr.Results) != 1 {
+							continue
+						}
+						k, isC := hr.Results[0].(*ssa.Const)
+						if isC && (k.Value == nil || (k.Value.String() == "true") != val) {
+							continue
+						}
+						hfs := w.factsAtK(hr, true)
+						if !isC {
+							// `return a && b`: the last operand is returned as a value; the verdict `val` on this way out means
+							// that operand has that value
+							condFacts(hr.Results[0], val, nil, &hfs)
+						}
+						for _, hf := range hfs {
+							out = append(out, errEdge{subst(hf.Expr), cls, retPos(r), t})
+						}
+					}
+					restore()
+				}
 			}
 		}
 	}
@@ -1137,6 +1207,8 @@ func ruleC03(w *World) {
 	// R8: the hash every signature is verified against is the hasher's output for *this call's* message: the data pointer
 	// and length handed to C are &h[0], len(h) with h = hasher.ComputeHash(message) computed in this activation
 	w.floor("C03.R8", 1)
+	w.floor("C03.R9", 1)
+	w.ruleSigContent("C03.R9", fn, 1)
 	{
 		msg := P(fn, 2)
 		wantH := fmt.Sprintf("%s.ComputeHash(%s)", kmac, msg)
@@ -1173,7 +1245,28 @@ func ruleC03(w *World) {
 	})
 	if w.check(rd != nil, "C03.R3", key+"/seed-source", c.Pos(), "seed buffer is filled by crypto/rand.Read", "the seed passed to C.bls_batch_verify is not filled by crypto/rand.Read (resolved callee)") {
 		w.requireFacts("C03.R3", key+"/seed-error-checked", c, render(rd)+"#1 == nil")
-		w.check(rd.Block().Dominates(c.Block()), "C03.R3", key+"/seed-before-call", c.Pos(), "rand.Read precedes the call on every path", "rand.Read does not dominate the batch call")
+		// when the buffer is allocated and filled in a helper, the helper's call stands for the Read in this function (the
+		// helper's error result is what the seed-error-checked obligation looks at)
+		rdBlock := rd.Block()
+		if rd.Parent() != fn {
+			var via []*ssa.Call
+			instrsFlat(fn, func(ins ssa.Instruction) {
+				if cc, ok := ins.(*ssa.Call); ok && cc.Call.StaticCallee() == rd.Parent() {
+					via = append(via, cc)
+				}
+			})
+			if len(via) == 1 {
+				rdBlock = via[0].Block()
+			}
+		}
+		w.check(rdBlock.Parent() == c.Parent() && rdBlock.Dominates(c.Block()), "C03.R3", key+"/seed-before-call", c.Pos(), "rand.Read precedes the call on every path", "rand.Read does not dominate the batch call")
+		// the whole buffer is drawn: C reads block i for batch position i, so a Read of a prefix (or any proper
+		// sub-slice) leaves the remaining positions with the zero bytes of make — a fixed coefficient
+		whole := rd.Call.Args[0] == seed
+		if sl, ok := rd.Call.Args[0].(*ssa.Slice); ok && sl.X == seed && sl.Low == nil && (sl.High == nil || render(sl.High) == "len("+render(seed)+")") {
+			whole = true
+		}
+		w.check(whole, "C03.R3", key+"/seed-filled-entirely", rd.Pos(), "rand.Read fills the whole seed buffer", "rand.Read fills `"+shortCond(render(rd.Call.Args[0]))+"`, not the whole seed buffer: the positions it does not reach keep the zero bytes of make, i.e. a coefficient known in advance")
 	}
 	// seed length = (securityBits/8) * n where n = len of the results buffer = len(sigs)
 	if ms, ok := seed.(*ssa.MakeSlice); ok {
@@ -1310,6 +1403,12 @@ func ruleC03(w *World) {
 
 // sliceBase strips &x[i], x[a:b], conversions down to the slice/array-producing value.
 func sliceBase(v ssa.Value) ssa.Value {
+	var restores []func()
+	defer func() {
+		for i := len(restores) - 1; i >= 0; i-- {
+			restores[i]()
+		}
+	}()
 	for {
 		switch x := v.(type) {
 		case *ssa.IndexAddr:
@@ -1321,6 +1420,15 @@ func sliceBase(v ssa.Value) ssa.Value {
 		case *ssa.Convert:
 			v = x.X
 		default:
+			// a helper called several times in one function (`ptr := bytesPtr(x)`): what its parameters denote is taken
+			// from *this* call, not from whichever call the helper was last entered through
+			hc, _ := v.(*ssa.Call)
+			if ex, ok := v.(*ssa.Extract); ok {
+				hc, _ = ex.Tuple.(*ssa.Call)
+			}
+			if hc != nil && helperCallee(hc) != nil {
+				restores = append(restores, bindHelper(hc))
+			}
 			if in := helperValue(v); in != nil {
 				v = in
 				continue
@@ -1340,9 +1448,65 @@ func sliceBase(v ssa.Value) ssa.Value {
 
 // ---------- C04 (Go side) ----------
 
+// importCgoExtents emits, under `rule`, the buffer-extent obligations of C09.R1 for every function reachable from the
+// entry points: a result "exact for every input" leaves no room for a panic or an out-of-bounds read on some input.
+func (w *World) importCgoExtents(rule string, entries []*ssa.Function) {
+	reach := map[*ssa.Function]bool{}
+	var visit func(f *ssa.Function, d int)
+	visit = func(f *ssa.Function, d int) {
+		if f == nil || reach[f] || !inModule(f) || d > 8 {
+			return
+		}
+		reach[f] = true
+		for _, b := range f.Blocks {
+			for _, ins := range b.Instrs {
+				if c, ok := ins.(ssa.CallInstruction); ok {
+					fns, _ := w.callees(c.Common())
+					for _, g := range fns {
+						visit(g, d+1)
+					}
+				}
+			}
+		}
+	}
+	for _, fn := range entries {
+		visit(fn, 0)
+	}
+	keys := map[string]bool{}
+	for f := range reach {
+		keys[fnKey(f)] = true
+	}
+	saved := w.out
+	tmp := &Out{Floors: map[string]int{}, Stats: map[string]int{}}
+	w.out = tmp
+	w.ruleCgoExtents(rule)
+	w.out = saved
+	for _, o := range tmp.Obligations {
+		fk := o.Key
+		if i := strings.Index(fk, "/"); i >= 0 {
+			fk = fk[:i]
+		}
+		if keys[fk] && o.Status != "info" {
+			w.out.Obligations = append(w.out.Obligations, o)
+		}
+	}
+}
+
 func ruleC04(w *World) {
 	w.floor("C04.R7", 10)
 	w.ruleCgoAliasing("C04.R7")
+	// R9: the aggregation / removal functions are total on their documented domain: every &x[0] handed to C is of a
+	// slice proved non-empty and long enough on that path (a list filtered in Go must be re-checked before &x[0])
+	w.floor("C04.R9", 4)
+	{
+		var entries []*ssa.Function
+		for _, n := range []string{"AggregateBLSSignatures", "AggregateBLSPrivateKeys", "AggregateBLSPublicKeys", "RemoveBLSPublicKeys"} {
+			if f := w.fn(rootPath, n); f != nil {
+				entries = append(entries, f)
+			}
+		}
+		w.importCgoExtents("C04.R9", entries)
+	}
 	a := w.bls("C04.R1")
 	if a == nil {
 		return
@@ -1508,6 +1672,9 @@ func ruleC16(w *World) {
 	// (exact signature length, hasher, identity flag, arguments handed to C unchanged) = C01.R2 on Verify — a candidate
 	// PoP string of another length, or whose prefix is a PoP, is not a PoP
 	w.floor("C16.R7", 4)
+	w.floor("C16.R8", 2)
+	w.ruleSigContent("C16.R8", a.verify, 1)
+	w.ruleSigContent("C16.R8", w.fn(rootPath, "BLSVerifyPOP"), 1)
 	{
 		saved := w.out
 		tmp := &Out{Floors: map[string]int{}, Stats: map[string]int{}}
@@ -1614,22 +1781,37 @@ func ruleC16(w *World) {
 					// readers: only the two PoP functions, and the value only flows into Sign/Verify calls
 					okFn := popFn(fn)
 					w.check(okFn, "C16.R3", "global:"+popG.Name()+"/reader:"+fnKey(fn), x.Pos(), "PoP hasher read by a PoP function", "PoP hasher is read outside BLSGeneratePOP/BLSVerifyPOP (it could be handed out or used for ordinary signatures)")
-					for _, ref := range *x.Referrers() {
-						switch rr := ref.(type) {
-						case ssa.CallInstruction:
-							m := ""
-							if rr.Common().IsInvoke() {
-								m = rr.Common().Method.Name()
-							} else if sc := rr.Common().StaticCallee(); sc != nil && sc.Signature.Recv() != nil && (sc == a.sign || sc == a.verify) {
-								m = sc.Name() // the BLS key's own Sign / Verify called on the concrete type
+					var uses func(v ssa.Value, in *ssa.Function, depth int)
+					uses = func(v ssa.Value, in *ssa.Function, depth int) {
+						for _, ref := range *v.Referrers() {
+							switch rr := ref.(type) {
+							case ssa.CallInstruction:
+								m := ""
+								if rr.Common().IsInvoke() {
+									m = rr.Common().Method.Name()
+								} else if sc := rr.Common().StaticCallee(); sc != nil && sc.Signature.Recv() != nil && (sc == a.sign || sc == a.verify) {
+									m = sc.Name() // the BLS key's own Sign / Verify called on the concrete type
+								}
+								// passed as the hasher of Sign/Verify, or asked directly for the hash of the message (checked below to be the key encoding)
+								direct := m == "ComputeHash" && rr.Common().Value == v
+								w.check(m == "Sign" || m == "Verify" || direct, "C16.R3", "global:"+popG.Name()+"/use:"+fnKey(in), rr.Pos(), "PoP hasher only passed to Sign/Verify (or hashing the key encoding directly)", "PoP hasher flows into something other than Sign/Verify")
+							case *ssa.Return:
+								// an unexported accessor called by the PoP functions only: the value is followed into its callers
+								if in != vpop && in != gpop && popFn(in) && depth < 2 && len(rr.Results) == 1 {
+									for _, cs := range w.callersOfCached(in) {
+										if cv, isV := cs.(ssa.Value); isV {
+											uses(cv, cs.Parent(), depth+1)
+										}
+									}
+									continue
+								}
+								w.viol("C16.R3", "global:"+popG.Name()+"/use:"+fnKey(in), ref.Pos(), "PoP hasher value escapes (stored/returned/converted)")
+							default:
+								w.viol("C16.R3", "global:"+popG.Name()+"/use:"+fnKey(in), ref.Pos(), "PoP hasher value escapes (stored/returned/converted)")
 							}
-							// passed as the hasher of Sign/Verify, or asked directly for the hash of the message (checked below to be the key encoding)
-							direct := m == "ComputeHash" && rr.Common().Value == ssa.Value(x)
-							w.check(m == "Sign" || m == "Verify" || direct, "C16.R3", "global:"+popG.Name()+"/use:"+fnKey(fn), rr.Pos(), "PoP hasher only passed to Sign/Verify (or hashing the key encoding directly)", "PoP hasher flows into something other than Sign/Verify")
-						default:
-							w.viol("C16.R3", "global:"+popG.Name()+"/use:"+fnKey(fn), ref.Pos(), "PoP hasher value escapes (stored/returned/converted)")
 						}
 					}
+					uses(x, x.Parent(), 0)
 				}
 			}
 		})
@@ -1737,6 +1919,12 @@ func ruleC17(w *World) {
 	w.floor("C17.R2", 8)
 	w.floor("C17.R3", 4)
 	fn := w.mustFn("C17.R2", rootPath, "SPOCKVerify")
+	// R8: "neither key is the identity" is read from the cached flag: every key object carries a recomputed flag (= C01.R4)
+	w.floor("C17.R8", 4)
+	w.ruleIdentityFlag("C17.R8", a)
+	w.floor("C17.R7", 2)
+	w.ruleSigContent("C17.R7", fn, 1, 3)
+	w.ruleSigContent("C17.R7", w.fn(rootPath, "SPOCKVerifyAgainstData"), 1)
 	if fn != nil {
 		sites := cgoCalls(fn, "bls_spock_verify")
 		if len(sites) != 1 {
@@ -1756,7 +1944,7 @@ func ruleC17(w *World) {
 				exp = nil
 			}
 			for i, e := range exp {
-				got := render(c.Call.Args[i])
+				got := normReslice(render(c.Call.Args[i]), a.sigLen)
 				w.check(got == e, "C17.R2", fmt.Sprintf("%s/arg%d", key, i), c.Pos(), "argument is "+e, fmt.Sprintf("argument %d of C.bls_spock_verify is `%s`, expected `%s` (pairs must stay aligned)", i, got, e))
 			}
 			w.ruleVerdictProvenance("C17.R2", fn, "bls_spock_verify", a)
@@ -1921,4 +2109,16 @@ func (w *World) appendLoopOf(arr ssa.Value) (*ssa.BasicBlock, string) {
 		}
 	}
 	return hdr, ""
+}
+
+// normReslice: `&x[:N][0]` (or `&x[0:N][0]`) is `&x[0]` when N is the guarded exact length n of x (the call sites that
+// use it have `len(x) == n` among their required facts): a re-slice to the full length keeps the base pointer.
+func normReslice(r string, n int64) string {
+	for _, pre := range []string{"[:", "[0:"} {
+		suf := fmt.Sprintf("%s%d][0]", pre, n)
+		if strings.HasSuffix(r, suf) {
+			return strings.TrimSuffix(r, suf) + "[0]"
+		}
+	}
+	return r
 }
